@@ -151,10 +151,11 @@ func (f *FieldCopyFromGenerator) genListOrMapIterator(g *j.Group, typ *j.Stateme
 
 	// obj.List = make([]string, 0) - same for maps. A null or unknown value must leave the field empty even
 	// if it carries elements.
-	g.Id(objFieldName).Op("=").Make(j.Id(f.i.WithType(f.GoType)), j.Lit(0))
+	f.optionalEmbedGuard(g, j.Id(objFieldName).Op("=").Make(j.Id(f.i.WithType(f.GoType)), j.Lit(0)))
 
 	// if !v.Null
 	g.If(j.Id("!v.Null && !v.Unknown")).BlockFunc(func(g *j.Group) {
+		f.optionalEmbedInit(g)
 		// obj.List = make([]string, len(v.Elems)) - same for maps
 		g.Id(objFieldName).Op("=").Make(j.Id(f.i.WithType(f.GoType)), j.Len(j.Id("v.Elems")))
 
@@ -167,6 +168,26 @@ func (f *FieldCopyFromGenerator) genListOrMapIterator(g *j.Group, typ *j.Stateme
 			).Else().BlockFunc(els)
 		})
 	})
+}
+
+// optionalEmbedGuard wraps the statement which resets a field of a nullable embedded message: there is
+// nothing to reset while the embedded pointer is nil
+func (f *FieldCopyFromGenerator) optionalEmbedGuard(g *j.Group, reset *j.Statement) {
+	if !f.ParentIsOptionalEmbed {
+		g.Add(reset)
+		return
+	}
+	g.If(j.Id("obj." + f.ParentIsOptionalEmbedFieldName).Op("!=").Nil()).Block(reset)
+}
+
+// optionalEmbedInit allocates the nullable embedded message before one of its fields is written
+func (f *FieldCopyFromGenerator) optionalEmbedInit(g *j.Group) {
+	if !f.ParentIsOptionalEmbed {
+		return
+	}
+	g.If(j.Id("obj." + f.ParentIsOptionalEmbedFieldName).Op("==").Nil()).Block(
+		j.Id("obj." + f.ParentIsOptionalEmbedFieldName).Op("=").Id("&" + f.ParentIsOptionalEmbedFullType + "{}"),
+	)
 }
 
 // genPrimitive generates CopyFrom fragment for a primitive field, wrapped by oneOf extraction
@@ -208,13 +229,14 @@ func (f *FieldCopyFromGenerator) genObject() *j.Statement {
 		if f.OneOfName == "" {
 			if f.IsNullable {
 				// obj.Nested = nil
-				g.Id(objFieldName).Op("=").Nil()
+				f.optionalEmbedGuard(g, j.Id(objFieldName).Op("=").Nil())
 			} else {
 				// obj.Nested = Nested{}
-				g.Id(objFieldName).Op("=").Id(f.i.WithType(f.GoElemType)).Values()
+				f.optionalEmbedGuard(g, j.Id(objFieldName).Op("=").Id(f.i.WithType(f.GoElemType)).Values())
 			}
 			// if !v.Null
 			g.If(j.Id("!v.Null && !v.Unknown")).BlockFunc(func(g *j.Group) {
+				f.optionalEmbedInit(g)
 				if f.IsNullable {
 					// obj.Nested = &Nested{}, also for a message without fields: the value is present
 					g.Id(objFieldName).Op("=&").Id(f.i.WithType(f.GoElemTypeIndirect)).Values()
